@@ -270,7 +270,9 @@ def gen_C09(rng, tier, seed):
     if g.nops > 40:
         g.nops = 40
     case = g.case(seed)
-    case["config"]["sweep_every"] = 0  # quiescent sweep at the end only
+    # quiescent sweep at the end; in some runs also in the middle of the history, so that what a
+    # pagination leaves in the object meets later restarts, clears and refills
+    case["config"]["sweep_every"] = rng.choice([0, 0, 0, 3, 6])
     pagers = []
     for _ in range(rng.choice([1, 1, 2])):
         if not g.created_prefixes and not g.pool:
@@ -350,3 +352,100 @@ def sweep_C10(ctx):
         if len(prefs) > 1:
             ctx.probe("multi_prefix_webentity")
     ctx.note("C10", sorted(m.links.items()))
+
+
+# ---------------------------------------------------------------------------
+# C10, resumed after other requests: every answer is judged against the index as it is when the
+# call is served - each link it names exists with that weight, is classified (internal / outbound)
+# by where its target resolves *now*, and a source page that appears comes with all its links
+def extend_C10(case, g, rng):
+    if rng.random() < 0.5:
+        return
+    between = []
+    for _ in range(rng.choice([1, 2, 3])):
+        ops = []
+        for _ in range(rng.choice([1, 1, 2])):
+            x = rng.random()
+            p = g.prefix()
+            if g.link_ends and rng.random() < 0.7:
+                sp = stem_prefixes(rng.choice(g.link_ends))
+                p = rng.choice(sp[-3:] or sp)
+            if x < 0.45:
+                g.created_prefixes.append(p)
+                ops.append({"op": "create_we", "prefixes": [O.enc(p)]})
+            elif x < 0.6 and g.created_prefixes:
+                ops.append({"op": "delete_we", "ref": O.enc(g.ref())})
+            elif x < 0.75 and g.created_prefixes:
+                ops.append({"op": "add_prefix", "prefix": O.enc(p), "ref": O.enc(g.ref())})
+            elif x < 0.85 and g.created_prefixes:
+                ops.append({"op": "remove_prefix", "prefix": O.enc(g.ref()), "mode": "right"})
+            else:
+                saved = g.weights
+                g.weights = {rng.choice(["add_links", "add_page"]): 1}
+                ops.append(g.op())
+                g.weights = saved
+        between.append(ops)
+    case["linkpagers"] = [{"ref": rng.choice(["largest", "largest", "second"]), "k": rng.choice([1, 1, 2, 3]), "switches": rng.choice([[True, False], [False, True], [True, True]]), "between": between}]
+
+
+def final_C10(ctx, case):
+    for scen in case.get("linkpagers", []):
+        run_linkpager(ctx, scen)
+
+
+def run_linkpager(ctx, scen):
+    m = ctx.model
+    srcs = Counter()
+    p2w = m.page_to_we()
+    for (s, x), n in m.links.items():
+        if p2w.get(s) is not None:
+            srcs[p2w[s]] += 1
+    ranked = sorted(srcs, key=lambda x: (-srcs[x], x))
+    if not ranked:
+        return
+    w = ranked[1] if scen["ref"] == "second" and len(ranked) > 1 else ranked[0]
+    prefs = m.we_prefixes(w)
+    k = scen["k"]
+    internal, outbound = scen["switches"]
+    token = None
+    calls = 0
+    opi = [len(ctx.case["ops"])]
+    budget = len(m.pages) + sum(len(O.op_lrus(o)) for b in scen["between"] for o in b) + 3
+    while True:
+        if any(m.pref.get(p) != w for p in prefs):
+            ctx.probe("linkpager_stopped_prefix_list_no_longer_the_webentitys")
+            return  # the request is no longer well-formed: the caller's prefix list is stale
+        r = guarded(ctx, "C10.resumed_call", ctx.t.paginate_webentity_pagelinks, w, prefs, include_internal=internal, include_outbound=outbound, source_page_count=k, pagination_token=token)
+        ctx.check("C10.resumed_call", r[0] == "ok", lambda: "pagelinks pager call refused (token %r)" % (token,))
+        a = r[1]
+        calls += 1
+        p2w = m.page_to_we()
+        got = Counter()
+        for s, x, n in a["pagelinks"]:
+            got[(s, x)] += n
+        by_src = {}
+        for (s, x), n in got.items():
+            by_src.setdefault(s, {})[x] = n
+        for s, d in sorted(by_src.items()):
+            exp = {}
+            if p2w.get(s) == w:
+                for (s2, x), n in m.links.items():
+                    if s2 == s:
+                        tw = p2w.get(x)
+                        if (internal and tw == w) or (outbound and tw != w):
+                            exp[x] = n
+            ctx.check("C10.resumed_answer", d == exp, lambda: "call %d (token %r): links reported for source %s are %s; as the index stands the unpaginated query gives %s" % (calls, token, short(s), short(sorted(d.items())), short(sorted(exp.items()))))
+        if a["done"]:
+            break
+        ctx.check("C10.resumed_size", len(by_src) == k and bool(a.get("token")), lambda: "non-final answer covers %d source pages (k=%d) or carries no token" % (len(by_src), k))
+        token = a["token"]
+        if calls > budget:
+            ctx.fail("C10.resumed_termination", "pagelinks pager did not finish within %d calls" % calls)
+        j = calls - 1
+        if j < len(scen["between"]):
+            for op in scen["between"][j]:
+                step(ctx, opi[0], op)
+                opi[0] += 1
+                ctx.res.stats["ops_between_calls"] += 1
+    if calls >= 2 and ctx.res.stats["ops_between_calls"]:
+        ctx.probe("linkpager_with_requests_between_calls")
